@@ -26,6 +26,7 @@ func ruleC15(prog *Program, rep *Report) {
 	ruleUnguardedElem(prog, rep, "oj", "sen", "alt", "pretty")
 	ruleBytesAs(prog, rep)
 	ruleUnsafeKind(prog, rep)
+	ruleEmbeddedNil(prog, rep)
 }
 
 // fieldLoops finds `for` loops whose init or condition calls NumField().
